@@ -20,7 +20,14 @@ func errStr(err error) string {
 
 func (r *Run) execute() *Run {
 	cfg := r.Cfg
-	r.Rec.Emit("reset", "n", int(cfg.N))
+	strict := 0
+	if cfg.Strict {
+		strict = 1
+	}
+	r.Rec.Emit("reset", "n", int(cfg.N), "strict", strict)
+	if !cfg.ManualStart && !cfg.Strict {
+		r.StartSenders()
+	}
 	r.Net = vnet.New(r.Rec, cfg.Latency, nil, Describe)
 
 	gbn.SetVerifSink(r.sink)
@@ -71,6 +78,7 @@ func (r *Run) execute() *Run {
 			wg.Add(1)
 			go func() {
 				defer wg.Done()
+				<-r.startCh
 				for id := 1; id <= cfg.Msgs[i]; id++ {
 					if cfg.Gap != nil {
 						if d := cfg.Gap(ep, id); d > 0 {
@@ -84,10 +92,18 @@ func (r *Run) execute() *Run {
 					// A fresh buffer per message: the queue
 					// keeps the slice for retransmission.
 					p := Payload(id, size)
+					r.mu.Lock()
+					r.calls[i]++
+					r.mu.Unlock()
 					r.Rec.Emit("sendCall", "ep", ep, "m", id)
+					t0 := time.Now()
 					err := conn.Send(p)
+					r.mu.Lock()
+					r.rets[i]++
+					r.mu.Unlock()
 					r.Rec.Emit("sendRet", "ep", ep, "m", id,
-						"err", errStr(err))
+						"err", errStr(err), "w",
+						int(time.Since(t0)/time.Millisecond))
 					if err != nil {
 						r.mu.Lock()
 						r.SendErr[i] = errStr(err)
